@@ -14,7 +14,14 @@ RULE = ("explicit-state search: breadth-first over sequences of log operations (
         "continuation of length <= 2 (load, empty session, appending sessions, recompaction, restat). Oracles on the real "
         "BuildLog after every step: Load never errors and equals the independent reader's last-wins fold over complete "
         "lines; an acknowledged record is what the next load returns; other entries are unchanged unless dead or replaced "
-        "by a record that looks out of date; recompaction drops exactly the dead set; restat changes only mtimes")
+        "by a record that looks out of date; recompaction drops exactly the dead set; restat changes only mtimes. "
+        "Process level (engine A, real ninja main in process): histories of depth <= 3/4 over {edit, touch, delete outputs, "
+        "drop a statement from the manifest, 400 more records of one output (long history), builds (full, single target, "
+        "-n, failing), -t restat (all / one / two outputs), -t recompact, -t cleandead, -t query, -t deps} from a built "
+        "tree, from a tree with a long history, and over logs of versions 4/6/8/70: an unsupported version is discarded "
+        "with the warning and without an error by every invocation that opens the log; -t restat changes only the "
+        "recorded mtimes (to the files' current ones, 0 when missing); every other invocation keeps the record of every "
+        "output that is in the manifest or on disk and whose command it did not run")
 
 
 def main(argv):
@@ -62,6 +69,17 @@ def main(argv):
                             {"engine": "lx_buildlog", "trail": v["trail"], "clause": v["clause"], "detail": v["detail"],
                              "args": [a for a in args if a.startswith("long=") or a.startswith("thorough=")]})
         fams.append(fam)
+    # ---- process level (engine A): the real ninja invocations on an existing log ----------------
+    import nxcheck
+    import templates_c08
+    c.violations_lx = list(c.violations)
+    agg = nxcheck.run(c, templates_c08.templates(c.tier), ["C08"], seconds=600, tag="c08")
+    fams.append({"family": "process level: -t restat / -t recompact / automatic recompaction / unsupported versions (engine A)",
+                 "scenarios": agg["scenarios"], "states": agg["states"], "transitions": agg["transitions"],
+                 "invocations": agg["invocations"], "incomplete_scenarios": agg["incomplete_scenarios"]})
+    total["states"] += agg["states"]
+    total["transitions"] += agg["transitions"]
+    total["ops"] += agg["invocations"]
     # keep at most a handful of distinct reports
     uniq = {}
     for what, p in c.violations:
